@@ -300,7 +300,8 @@ def _check(case, res, sb):
     ops = list(case['ops']) + [{'k': 'FILES0'}, {'k': 'FILES', 'p': 'D:'}]
     known_a = False           # a path in the dotdot-blank region was used earlier in this history
     nontrivial = False
-    sess = harness.Sess(sandbox=sb, budget=4000, devices={'C': spec_c, 'D': md, 'Z': None},
+    sess = harness.Sess(sandbox=sb, budget=4000, video='cga',
+                        devices={'C': spec_c, 'D': md, 'Z': None},
                         current_device='C:')
     try:
         with mon.armed():
